@@ -401,8 +401,8 @@ class BoundedStream:
                     #   expecting. This *should* never happen, but better
                     #   safe than sorry.
                     chunks.append(next_chunk[: self._bytes_remaining])
-                    self._bytes_remaining = 0
                     num_bytes_available += self._bytes_remaining
+                    self._bytes_remaining = 0
 
             # NOTE(kgriffs): This also handles the case of receiving
             #   the event: {'type': 'http.disconnect'}
